@@ -175,6 +175,19 @@ def fexpand {α : Type} (conj : α → α) (x : List α) (ns : Nat) : PyRes (Lis
   if 2 ≤ ilast ∧ x.length < ilast then .indexError
   else .val (x ++ (((x.take ilast).drop 1).reverse.map conj))
 
+/-- number of bins `freduce` keeps of an axis of length `n` (named so that the translated source can be tied to it) -/
+def freduceSize (n : Nat) : Nat := n / 2 + 1
+
+/-- `ilast` of `fexpand(x, ns)`: bins `1 … ilast-1` are mirrored -/
+def fexpandLast (ns : Nat) : Nat := (ns + ns % 2) / 2
+
+theorem freduce_eq_named {α : Type} (x : List α) :
+    freduce x = if x.length < freduceSize x.length then .indexError else .val (x.take (freduceSize x.length)) := rfl
+
+theorem fexpand_eq_named {α : Type} (conj : α → α) (x : List α) (ns : Nat) :
+    fexpand conj x ns = if 2 ≤ fexpandLast ns ∧ x.length < fexpandLast ns then .indexError
+      else .val (x ++ (((x.take (fexpandLast ns)).drop 1).reverse.map conj)) := rfl
+
 /-! ### `fscale`
 
     fsc = np.arange(0, np.floor(ns / 2) + 1) / ns / si
